@@ -20,7 +20,7 @@ class CoreStmtGen(G.StmtGen):
     def select(self, depth=0, simple=False, scalar=False):
         s = super().select(depth, simple, scalar)
         s["all_kw"], s["for_"], s["offset_rows"] = False, None, False
-        s["cols"] = [((("star",), None, False) if e[0] == "qstar" else (e, al, askw)) for e, al, askw in s["cols"]]
+        s["cols"] = [((e, None, False) if e[0] == "qstar" else (e, al, askw)) for e, al, askw in s["cols"]]
         s["group_by"] = [g for g in s["group_by"] if g[0] in ("expr", "rollup", "cube")]
         return s
 
@@ -93,6 +93,9 @@ class Conv:
             if e[0] == "star":
                 need(not al)
                 items.append("IStar")
+            elif e[0] == "qstar":
+                need(not al)
+                items.append("(IQStar %s)" % G.coq_str(e[1]))
             else:
                 items.append("(IExpr %s %s)" % (self.E(e, CL["items"] + sh, i), self.alias(al, askw)))
         frm = [self.table(t) for t in s["from_"]]
@@ -281,6 +284,7 @@ FIXED_TEXTS = [
     "INSERT INTO t VALUES ( 1 ) ON CONFLICT ON CONSTRAINT DO NOTHING", "INSERT INTO t VALUES ( 1 ) ON DUPLICATE KEY UPDATE a = 1", "INSERT INTO t VALUES ( 1 ) ON CONFLICT DO NOTHING WHERE a", "SELECT 1 x y", "SELECT 1 FETCH FIRST 1 ROWS ONLY",
     "SELECT DISTINCT ON ( a + 1 , ( b ) ) c , d FROM t", "SELECT a FROM t GROUP BY ROLLUP ( a , b + 1 ) , c , CUBE ( ( d ) )", "SELECT a FROM t GROUP BY ROLLUP ( )",
     "SELECT a FROM t GROUP BY ROLLUP a", "SELECT a FROM t GROUP BY CUBE ( a b )", "SELECT a FROM t GROUP BY ROLLUP ( a ) HAVING b ORDER BY c",
+    "SELECT t . * , u . * FROM t , u", "SELECT t . * AS x FROM t", "SELECT t . * x FROM t", "SELECT t . FROM t", "SELECT t . * [ 1 ] FROM t", "SELECT * . a FROM t",
     "SELECT a FROM t FETCH FIRST 3 ROWS ONLY", "SELECT a FROM t OFFSET 2 FETCH NEXT 10 PERCENT ROW WITH TIES", "SELECT a FROM t FETCH FIRST 3", "SELECT a FROM t FETCH 3 ROWS ONLY",
     "SELECT a FROM t FETCH NEXT 3 WITH", "SELECT a FROM t FETCH FIRST x ROWS ONLY", "SELECT a FROM t FETCH FIRST 3 ROWS ONLY FOR UPDATE", "SELECT a FROM t FETCH FIRST 1 ROW ONLY UNION SELECT b FROM u",
     "SELECT a FROM t GROUP BY 'GROUPING SETS' , b", 'SELECT a FROM t GROUP BY "GROUPING SETS"', "SELECT a FROM t GROUP BY GROUPING SETS ( ( a ) )",
